@@ -100,14 +100,15 @@ static void product(int v, unsigned r, unsigned k, unsigned c, int content, unsi
     }
 }
 
+// pattern 2: negative and infinite off-diagonal entries (a discarded part that is multiplied by zero instead of being skipped shows as NaN or -0)
 // pattern 0: index-coded entries; pattern 1: signed zeros (+0 above, -0 below the diagonal, 1 on it): "exact" means bit for bit,
 // and an implementation that skips "equal" mirrored entries or re-creates zeros instead of copying them is visible only here
 static void structure(unsigned m, unsigned n, int pattern = 0)
 {
     std::vector<a_real> A((size_t)m * n), A0;
-    for (unsigned i = 0; i < m; ++i) { for (unsigned j = 0; j < n; ++j) { A[(size_t)i * n + j] = pattern == 0 ? xval(i, j) : (i < j ? (a_real)0.0 : i > j ? (a_real)-0.0 : (a_real)1); } }
+    for (unsigned i = 0; i < m; ++i) { for (unsigned j = 0; j < n; ++j) { A[(size_t)i * n + j] = pattern == 0 ? xval(i, j) : pattern == 1 ? (i < j ? (a_real)0.0 : i > j ? (a_real)-0.0 : (a_real)1) : (i == j ? (a_real)2 : ((i + j) % 3 == 0 ? (a_real)(i < j ? -INFINITY : INFINITY) : (a_real)(-1.5 - (double)(i + 2 * j)))); } }
     A0 = A;
-    std::string sh = shape(m, n) + (pattern ? "|signed-zeros" : "");
+    std::string sh = shape(m, n) + (pattern == 1 ? "|signed-zeros" : pattern == 2 ? "|negative-and-infinite" : "");
     std::string in = "{\"m\":" + std::to_string(m) + ",\"n\":" + std::to_string(n) + "}";
     auto check = [&](const char *fn, Out &O, unsigned rows, unsigned cols, std::function<double(unsigned, unsigned)> want) {
         ++n_eval;
@@ -157,7 +158,7 @@ int main(int argc, char **argv)
     vx::Args args(argc, argv);
     R.init(args);
     bool thorough = R.tier == "thorough";
-    unsigned D = thorough ? 9 : 5, S = thorough ? 12 : 6;
+    unsigned D = thorough ? 12 : 9, S = thorough ? 20 : 12; // structure kernels up to 12x12 (20x20): blocked implementations have remainders
     return vx::run_contained([&] {
         n_eval = n_nt = 0;
         uint64_t item = 0;
@@ -188,7 +189,7 @@ int main(int argc, char **argv)
         }
         R.part(std::string("four product variants on every (row, inner, col) in 1..") + std::to_string(D) + "^3 with index-coded operands, plus all single-entry operand pairs for dims <= 3; stale data in the result area, guard cells around it", n_eval, n_nt);
         uint64_t e0 = n_eval, t0 = n_nt;
-        for (unsigned m = 1; m <= S; ++m) { for (unsigned n = 1; n <= S; ++n) { if (R.shard.mine(item++)) { structure(m, n); structure(m, n, 1); } } }
+        for (unsigned m = 1; m <= S; ++m) { for (unsigned n = 1; n <= S; ++n) { if (R.shard.mine(item++)) { structure(m, n); structure(m, n, 1); structure(m, n, 2); } } }
         R.part(std::string("T1/T2/eye/tri/diag/triL/triL1/triU/triU1 and their rectangular forms on every (m, n) in 1..") + std::to_string(S) + "^2 (wide, square, tall), T2 and T1 applied twice", n_eval - e0, n_nt - t0);
         R.sample("{\"fn\":\"a_real_mulmT\",\"row\":2,\"col\":3,\"inner\":1,\"X\":\"index-coded 2x1\",\"Y\":\"primes 3x1\",\"check\":\"Z == X*Y^T exactly, 24 guard cells on both sides untouched\"}");
         R.finish(true, "every listed shape enumerated");
